@@ -123,9 +123,23 @@ impl Family for MpscFam {
             }
             COp::Recv => {
                 let h = o.rx.borrow_mut().take().expect("recv without receiver");
-                let r = match h.recv() {
-                    Ok(v) => CRes::Val(v),
-                    Err(_) => CRes::Disconnected,
+                let r = if alt_api() && t % 2 == 0 {
+                    match h.recv_timeout(std::time::Duration::from_millis(1)) {
+                        Ok(v) => CRes::Val(v),
+                        Err(mpsc::RecvTimeoutError::Disconnected) => CRes::Disconnected,
+                        // Shuttle does not model time: the alias never reports a timeout
+                        Err(mpsc::RecvTimeoutError::Timeout) => panic!("recv_timeout reported a timeout"),
+                    }
+                } else if alt_api() {
+                    match h.iter().next() {
+                        Some(v) => CRes::Val(v),
+                        None => CRes::Disconnected,
+                    }
+                } else {
+                    match h.recv() {
+                        Ok(v) => CRes::Val(v),
+                        Err(_) => CRes::Disconnected,
+                    }
                 };
                 *o.rx.borrow_mut() = Some(h);
                 r
@@ -431,6 +445,10 @@ fn child_receives(cap: Option<usize>, other_senders: usize, ks: usize, kr: usize
 }
 
 pub fn program_set(set: &str) -> Vec<Program<MpscFam>> {
+    if let Some(base) = set.strip_suffix("-alt") {
+        // the same programs with `recv` through recv_timeout (even threads) / iter().next() (odd threads)
+        return program_set(base).into_iter().filter(|p| p.threads.iter().flatten().any(|o| matches!(o, GOp::Op(COp::Recv)))).collect();
+    }
     let thorough = set == "thorough";
     let mut out = Vec::new();
     for cap in [None, Some(0), Some(1), Some(2)] {
